@@ -172,8 +172,11 @@ impl Drawing {
       for (i, line) in k.lines.iter().enumerate() {
         let lw = width_of(line);
         let off = if centre { (inner_w - lw) / 2 } else { pad.min(inner_w - lw) };
-        // a merged cell may be crossed by the positions of inner grid lines: lines of text go to text rows only
-        let y = y0 + i;
+        // a merged cell may be crossed by the positions of inner grid lines: lines of text go to text rows only;
+        // with `centre`, the text of a cell that occupies one row of the grid is centred vertically as well
+        let inner_h = ypos[k.r1 + 1] - y0;
+        let voff = if centre && k.r0 == k.r1 && inner_h > k.lines.len() { (inner_h - k.lines.len()) / 2 } else { 0 };
+        let y = y0 + voff + i;
         for (j, ch) in line.chars().enumerate() {
           m[y][x0 + off + j] = ch;
         }
@@ -234,11 +237,12 @@ fn merge_equal_neighbours(cells: &mut Vec<Cell>, is_entry: &dyn Fn(&Cell) -> boo
 pub fn draw_table(t: &J) -> String {
   let s = |v: &J| v.as_str().unwrap_or("").to_string();
   let style = s(&t["style"]);
-  let multi = style == "multi" || style == "multitight";
+  let multi = style == "multi" || style == "multitight" || style == "multicentre";
   let (pad, centre) = match style.as_str() {
     "tight" | "multitight" => (0, false),
     "merged" => (1, false),
     "wide" => (2, true),
+    "multicentre" => (1, true),
     _ => (1, false),
   };
   let ins: Vec<&J> = t["ins"].as_array().map(|a| a.iter().collect()).unwrap_or_default();
